@@ -149,5 +149,85 @@ theorem sweepUT_spec (n : Nat) (P : Nat → Nat) (c : Nat → Nat → K) (dg : N
         intro hc; exact hp m (by omega) hc.1
       rw [if_neg hne, h4 p hp]
 
+/-- the sweep of the `uplo = L, trans = T/C` branch of `?trsv_` (dtrsv.c:264-300, ztrsv.c:347-440):
+columns `n-1` down to `0`, inner index `i = n-1, ..., j+1` -/
+def sweepLT (n : Nat) (P : Nat → Nat) (c : Nat → Nat → K) (dg : Nat → K) (nounit : Bool) (x : Array K) (m : Nat) : Array K :=
+  loop m (fun (x : Array K) jj =>
+    let j := n - 1 - jj
+    let temp := loop (n - 1 - j) (fun (t : K) ii => let i := n - 1 - ii; t - c i j * x[P i]!) x[P j]!
+    let temp := if nounit then temp / dg j else temp
+    x.setIfInBounds (P j) temp) x
+
+omit [Conj K] in
+theorem sweepLT_spec (n : Nat) (P : Nat → Nat) (c : Nat → Nat → K) (dg : Nat → K) (nounit : Bool) (x : Array K)
+    (hinj : ∀ i j, i < n → j < n → P i = P j → i = j) (hb : ∀ i, i < n → P i < x.size)
+    (hd : nounit = true → ∀ j, j < n → dg j ≠ 0) (m : Nat) (hm : m ≤ n) :
+    (sweepLT n P c dg nounit x m).size = x.size ∧
+    (∀ j, n - m ≤ j → j < n →
+      (∑ ii ∈ range (n - 1 - j), c (n - 1 - ii) j * (sweepLT n P c dg nounit x m)[P (n - 1 - ii)]!) +
+        (if nounit then dg j else 1) * (sweepLT n P c dg nounit x m)[P j]! = x[P j]!) ∧
+    (∀ j, j < n - m → (sweepLT n P c dg nounit x m)[P j]! = x[P j]!) ∧
+    (∀ p, (∀ i, i < n → P i ≠ p) → (sweepLT n P c dg nounit x m)[p]! = x[p]!) := by
+  induction m with
+  | zero =>
+    refine ⟨by simp [sweepLT, loop_zero], ?_, by simp [sweepLT, loop_zero], by simp [sweepLT, loop_zero]⟩
+    intro j h1 h2; omega
+  | succ m ih =>
+    obtain ⟨h1, h2, h3, h4⟩ := ih (by omega)
+    have hj0 : n - 1 - m < n := by omega
+    have hstep : sweepLT n P c dg nounit x (m + 1) =
+        (sweepLT n P c dg nounit x m).setIfInBounds (P (n - 1 - m))
+          (if nounit then (loop (n - 1 - (n - 1 - m)) (fun (t : K) ii => t - c (n - 1 - ii) (n - 1 - m) * (sweepLT n P c dg nounit x m)[P (n - 1 - ii)]!)
+              (sweepLT n P c dg nounit x m)[P (n - 1 - m)]!) / dg (n - 1 - m)
+           else loop (n - 1 - (n - 1 - m)) (fun (t : K) ii => t - c (n - 1 - ii) (n - 1 - m) * (sweepLT n P c dg nounit x m)[P (n - 1 - ii)]!)
+              (sweepLT n P c dg nounit x m)[P (n - 1 - m)]!) := by
+      simp [sweepLT, loop_succ]
+    have htemp : loop (n - 1 - (n - 1 - m)) (fun (t : K) ii => t - c (n - 1 - ii) (n - 1 - m) * (sweepLT n P c dg nounit x m)[P (n - 1 - ii)]!)
+          (sweepLT n P c dg nounit x m)[P (n - 1 - m)]! =
+        x[P (n - 1 - m)]! - ∑ ii ∈ range (n - 1 - (n - 1 - m)), c (n - 1 - ii) (n - 1 - m) * (sweepLT n P c dg nounit x m)[P (n - 1 - ii)]! := by
+      rw [h3 (n - 1 - m) (by omega)]
+      exact loop_sub_eq_sum _ _ _
+    rw [hstep, htemp]
+    have hsz : P (n - 1 - m) < (sweepLT n P c dg nounit x m).size := by rw [h1]; exact hb _ hj0
+    -- positions other than `P (n-1-m)` keep their value
+    have keep : ∀ i, i < n → i ≠ n - 1 - m → ∀ v : K,
+        ((sweepLT n P c dg nounit x m).setIfInBounds (P (n - 1 - m)) v)[P i]! = (sweepLT n P c dg nounit x m)[P i]! := by
+      intro i hi hne v
+      rw [getElem!_setIfInBounds]
+      have : ¬ (P (n - 1 - m) = P i ∧ P (n - 1 - m) < (sweepLT n P c dg nounit x m).size) := by
+        intro hc; exact hne (hinj i (n - 1 - m) hi hj0 hc.1.symm)
+      rw [if_neg this]
+    refine ⟨by simp [h1], ?_, ?_, ?_⟩
+    · intro j hj hjn
+      have hsum : ∀ v : K, ∑ ii ∈ range (n - 1 - j), c (n - 1 - ii) j *
+            ((sweepLT n P c dg nounit x m).setIfInBounds (P (n - 1 - m)) v)[P (n - 1 - ii)]! =
+          ∑ ii ∈ range (n - 1 - j), c (n - 1 - ii) j * (sweepLT n P c dg nounit x m)[P (n - 1 - ii)]! := by
+        intro v
+        apply Finset.sum_congr rfl
+        intro ii hii
+        have := mem_range.mp hii
+        rw [keep (n - 1 - ii) (by omega) (by omega) v]
+      rw [hsum]
+      by_cases hjm : j = n - 1 - m
+      · subst hjm
+        rw [getElem!_setIfInBounds]
+        simp only [hsz, and_self, if_true]
+        cases hnu : nounit
+        · simp
+        · have := hd hnu (n - 1 - m) hj0
+          simp only [if_true]
+          field_simp
+          ring
+      · rw [keep j hjn hjm]
+        exact h2 j (by omega) hjn
+    · intro j hj
+      rw [keep j (by omega) (by omega)]
+      exact h3 j (by omega)
+    · intro p hp
+      rw [getElem!_setIfInBounds]
+      have : ¬ (P (n - 1 - m) = p ∧ P (n - 1 - m) < (sweepLT n P c dg nounit x m).size) := by
+        intro hc; exact hp _ hj0 hc.1
+      rw [if_neg this, h4 p hp]
+
 end trsv
 end Slu.Cblas
